@@ -194,3 +194,72 @@ pub fn model_with(r: &mut Rng, c: &ModelCfg, ds: Vec<VarDecl>) -> (Model, Vec<Va
     let obj = if matches!(opt, OptimizationType::Satisfy) { Exp::Number(0.0) } else { num_exp(r, &ds, c, c.depth) };
     (build(opt, obj, cons, &ds), ds)
 }
+
+/// Models built around ONE exact (two-sided) `min`/`max` with three or four operands among which a dominated one
+/// (a constant or a variable whose range lies entirely on the losing side) stands BEFORE retained ones, operand
+/// ranges that differ from each other, and contexts that need the exact value (equality, the "wrong" inequality
+/// direction, the objective in the unfavourable direction, nesting under `abs`): index bookkeeping between the
+/// operand list and the list retained after pruning, and requirement handling under non-monotone parents.
+pub fn extreme_model(r: &mut Rng) -> (Model, Vec<VarDecl>) {
+    let is_max = r.chance(1, 2);
+    let nv = 2 + r.below(2);
+    let names = ["x", "y", "w"];
+    let mut ds: Vec<VarDecl> = vec![];
+    for i in 0..nv {
+        let lo = r.range(-5, 3) as f64;
+        let width = r.range(1, 9) as f64;
+        let ty = match r.below(4) {
+            0 => VariableType::IntegerRange(lo as i32, (lo + width) as i32),
+            1 if lo >= 0.0 => VariableType::NonNegativeReal(lo, lo + width),
+            _ => VariableType::Real(lo, lo + width),
+        };
+        ds.push(VarDecl { name: names[i].to_string(), ty });
+    }
+    // the dominated operand: a constant below every lower bound (max) / above every upper bound (min), or a variable
+    // declared on the losing side
+    let (all_lo, all_hi) = ds.iter().fold((f64::INFINITY, f64::NEG_INFINITY), |(a, b), d| match d.ty {
+        VariableType::IntegerRange(l, h) => (a.min(l as f64), b.max(h as f64)),
+        VariableType::Real(l, h) | VariableType::NonNegativeReal(l, h) => (a.min(l), b.max(h)),
+        VariableType::Boolean => (a.min(0.0), b.max(1.0)),
+    });
+    let dominated: Exp = if r.chance(2, 3) {
+        Exp::Number(if is_max { all_lo - r.below(3) as f64 } else { all_hi + r.below(3) as f64 })
+    } else {
+        let (l, h) = if is_max { (all_lo - 6.0, all_lo - r.below(2) as f64) } else { (all_hi + r.below(2) as f64, all_hi + 6.0) };
+        ds.push(VarDecl { name: "z".into(), ty: VariableType::Real(l, h) });
+        Exp::Variable("z".into())
+    };
+    let mut ops: Vec<Exp> = (0..nv).map(|i| {
+        let v = Exp::Variable(names[i].to_string());
+        match r.below(5) { 0 => Exp::BinOp(BinOp::Add, Box::new(v), Box::new(Exp::Number(r.range(-2, 2) as f64))), 1 => Exp::BinOp(BinOp::Mul, Box::new(Exp::Number(*r.pick(&[2.0, 0.5, -1.0]))), Box::new(v)), _ => v }
+    }).collect();
+    let pos = r.below(ops.len()); // before at least one retained operand
+    ops.insert(pos, dominated);
+    let ext = if is_max { Exp::Max(ops) } else { Exp::Min(ops) };
+    // a context that needs the exact value
+    let subject = match r.below(4) {
+        0 => Exp::Abs(Box::new(ext.clone())),
+        1 => Exp::Abs(Box::new(Exp::BinOp(BinOp::Sub, Box::new(Exp::Abs(Box::new(Exp::Variable("x".into())))), Box::new(Exp::Number(2.0))))),
+        _ => ext.clone(),
+    };
+    let k = r.range(all_lo as i64 - 1, all_hi as i64 + 1) as f64;
+    let mut cons = vec![];
+    let mut obj = Exp::Variable("x".into());
+    let mut opt = if r.chance(1, 2) { OptimizationType::Min } else { OptimizationType::Max };
+    match r.below(5) {
+        0 => cons.push(Constraint::new(subject, Comparison::Equal, Exp::Number(k), "t".into())),
+        1 => cons.push(Constraint::new(subject, if is_max { Comparison::GreaterOrEqual } else { Comparison::LessOrEqual }, Exp::Number(k), "".into())),
+        2 => cons.push(Constraint::new(subject, if is_max { Comparison::LessOrEqual } else { Comparison::GreaterOrEqual }, Exp::Number(k), "".into())),
+        3 => {
+            // objective in the direction that needs the exact encoding, minus a pull on one operand
+            opt = if is_max { OptimizationType::Max } else { OptimizationType::Min };
+            obj = Exp::BinOp(BinOp::Sub, Box::new(subject), Box::new(Exp::BinOp(BinOp::Mul, Box::new(Exp::Number(2.0)), Box::new(Exp::Variable("y".into())))));
+        }
+        _ => {
+            opt = if is_max { OptimizationType::Min } else { OptimizationType::Max };
+            obj = Exp::BinOp(BinOp::Add, Box::new(subject), Box::new(Exp::Variable("y".into())));
+        }
+    }
+    if r.chance(1, 2) { cons.push(Constraint::new(Exp::BinOp(BinOp::Add, Box::new(Exp::Variable("x".into())), Box::new(Exp::Variable("y".into()))), comparison(r), Exp::Number(r.range(-3, 6) as f64), "cap".into())); }
+    (build(opt, obj, cons, &ds), ds)
+}
